@@ -296,3 +296,8 @@ func (l SlowLog) Debugf(f string, a ...interface{}) { l.slow(f) }
 func (l SlowLog) Infof(f string, a ...interface{})  { l.slow(f) }
 func (l SlowLog) Warnf(f string, a ...interface{})  { l.slow(f) }
 func (l SlowLog) Errorf(f string, a ...interface{}) { l.slow(f) }
+
+// DebugNolog: a silent logger whose DebugEnabled() is true (the code paths that only run when debug logging is on)
+type DebugNolog struct{ Nolog }
+
+func (DebugNolog) DebugEnabled() bool { return true }
